@@ -364,6 +364,21 @@ func mkBinop(op token.Token, x, y *Val, t types.Type) *Val {
 			}
 		}
 	}
+	// b == true is b, b == false is !b (a `switch ok { case true: … }`)
+	if op == token.EQL || op == token.NEQ {
+		for i := 0; i < 2; i++ {
+			c, o := []*Val{x, y}[i], []*Val{x, y}[1-i]
+			if bv, isB := c.Bool(); isB && c.IsConst() && o.Type != nil && isBoolType(o.Type) && !o.IsConst() {
+				if bv == (op == token.EQL) {
+					return o
+				}
+				if nb, ok := o.Bool(); ok {
+					return mkBool(!nb)
+				}
+				return &Val{Op: "unop", Name: "!", Args: []*Val{o}, Type: t}
+			}
+		}
+	}
 	// a value of a narrow integer type (possibly widened) against a constant outside that type's range
 	switch op {
 	case token.LSS, token.LEQ, token.GTR, token.GEQ, token.EQL, token.NEQ:
